@@ -25,6 +25,15 @@ QK = ["qalloc", "init", "qfree"]
 ERR = {"AssertionError": 1, "RuntimeError": 2, "ValueError": 3, "KeyError": 4}
 
 
+def _define_vanilla_mov():
+    """netqasm's executor has no operator for vanilla `mov`; its meaning (C07's mov_transfers) is a state
+    transfer onto a freshly initialised target.  On such inputs that is a SWAP; the oracle programs
+    re-initialise the source right after the move, so the state the source is left in does not matter."""
+    import sdk_pipeline
+
+    sdk_pipeline.GATES.setdefault("mov", np.array([[1, 0, 0, 0], [0, 0, 1, 0], [0, 1, 0, 0], [0, 0, 0, 1]], dtype=complex))
+
+
 class NvImpl:
     def __init__(self, repo):
         if sys.path[0] != repo:
@@ -40,6 +49,7 @@ class NvImpl:
         from netqasm.runtime import settings
         from netqasm.sdk.transpile import NVSubroutineTranspiler
 
+        _define_vanilla_mov()
         self.repo = repo
         self.op, self.core, self.nv, self.van = operand, core, nv, vanilla
         self.Debug, self.Subroutine, self.T = DebugInstruction, Subroutine, NVSubroutineTranspiler
